@@ -959,3 +959,47 @@ func ReachingStores(load *ssa.UnOp) []*ssa.Store {
 	}
 	return out
 }
+
+// DependsOnDeep is DependsOn that also looks through calls (receiver and
+// arguments of any call the value is computed by).
+func DependsOnDeep(v ssa.Value, pred func(ssa.Value) bool) bool {
+	found := false
+	seen := map[ssa.Value]bool{}
+	var rec func(v ssa.Value)
+	rec = func(v ssa.Value) {
+		if found || v == nil || seen[v] {
+			return
+		}
+		Walk(v, func(x ssa.Value) bool {
+			if found {
+				return false
+			}
+			if pred(x) {
+				found = true
+				return false
+			}
+			if seen[x] && x != v {
+				return false
+			}
+			seen[x] = true
+			if c, ok := x.(*ssa.Call); ok {
+				if !c.Call.IsInvoke() {
+					if _, isB := c.Call.Value.(*ssa.Builtin); !isB {
+						rec2 := c.Call.Value
+						if _, isF := rec2.(*ssa.Function); !isF {
+							rec(rec2)
+						}
+					}
+				} else {
+					rec(c.Call.Value)
+				}
+				for _, a := range c.Call.Args {
+					rec(a)
+				}
+			}
+			return true
+		})
+	}
+	rec(v)
+	return found
+}
